@@ -302,6 +302,12 @@ def build(case):
         if v < 0.2:
             return Rectangle(scen.rnd(rng, 0.5, 6), scen.rnd(rng, 0.5, 3), np.array([scen.rnd(rng, -99, 99), 0.0]),
                              rng.choice([TWO_PI, -TWO_PI, 6.0, -6.0, 0.0, 0, 3.0, -3.0]))
+        if v < 0.26 or (case.get("tint") and v < 0.85):
+            # a shape placed at whole-number coordinates handed over as an integer array (the constructors do not cast);
+            # most often when the translation is an integer array too
+            c = np.array([rng.randint(-20, 20), rng.randint(-20, 20)])
+            return Circle(scen.rnd(rng, 0.3, 3), c) if rng.random() < 0.6 else \
+                Rectangle(scen.rnd(rng, 0.5, 6), scen.rnd(rng, 0.5, 3), c, scen.rnd(rng, -3, 3))
         return scen.rand_shape(rng, ("rect", "circ", "poly", "group"), centred=rng.random() < 0.15,
                                scale=rng.choice([1.0, 1.0, 0.01, 30.0]))
     if k == "state":
@@ -380,6 +386,9 @@ def gen(rng, n):
             c["at"] = "int" if isinstance(c["a"], int) else "float"
         if rng.random() < 0.4:
             c["m2"] = second_motion(rng, c)
+        if rng.random() < 0.15 and not c.get("m2", {}).get("reuse"):
+            c["t"] = [float(rng.randint(-9, 9)), float(rng.randint(-9, 9))]
+            c["tint"] = True
         if k in ("pts", "rottr"):
             m = rng.randint(1, 6)
             sc = rng.choice([1.0, 1.0, 100.0, 1e4, 1e-3])
@@ -501,6 +510,8 @@ def evaluate(case):
     obj = build(case)
     k = case["kind"]
     t = np.array(case["t"], dtype=float)
+    if case.get("tint"):
+        t = np.array([int(x) for x in case["t"]])    # a whole-number translation given as an integer array
     a = angle_of(case)
     ev = {"kind": k, "t": t, "a": a}
     if k in ("pts", "rottr"):
